@@ -16,6 +16,8 @@ ENGINES = [
     {"name": "Proposal.tla", "path": "/verif/spec/Proposal.tla", "serves_properties": ["C08", "C01"], "kind_free_text": "three proposals as draw procedures + reported densities, incremental weights, telescoping state machine"},
     {"name": "PGibbs.tla", "path": "/verif/spec/PGibbs.tla", "serves_properties": ["C01", "C19"], "kind_free_text": "distribution-lifted particle-Gibbs update in F_p with deviation constants"},
     {"name": "Moves.tla", "path": "/verif/spec/Moves.tla", "serves_properties": ["C04", "C07"], "kind_free_text": "exact F_p kernels of data-point, prune-regraft and (ideal-inner) subtree moves"},
+    {"name": "TreeADT.tla", "path": "/verif/spec/TreeADT.tla", "serves_properties": ["C06", "C07", "C15"], "kind_free_text": "implementation-shaped Tree ADT with symbolic cache signatures under the sampler edit grammar; TraceTreeADT.tla validates recorded steps"},
+    {"name": "GridRec.tla", "path": "/verif/spec/GridRec.tla", "serves_properties": ["C02", "C06", "C10", "C03"], "kind_free_text": "CCF-grid sum-product / max-product: definition vs implemented recursion; GridOracle.tla dumps exact integer vectors"},
     {"name": "Forests.tla", "path": "/verif/spec/Forests.tla", "serves_properties": ["C01", "C03", "C04", "C06", "C07", "C08", "C09", "C11", "C12", "C16"], "kind_free_text": "canonical forest universe"},
 ]
 
@@ -47,6 +49,20 @@ CHECKS = {
                 "enumerated (run wiring and library wiring, TLC's tables and the real density) and max|pi K - pi| <= 1e-10 is required. The "
                 "subtree move on >=3 points is a listed open finding (TLC refutes even the ideal version); its behaviour is pinned by a fingerprint.",
         "note": "Trusted: TLC, EnumRNG, projection. Bounded to n<=3 (quick) / n<=4 DP,PRG and n<=3 subtree (thorough).",
+    },
+    "C06": {
+        "engine": "TreeADT.tla",
+        "category": "model_checking",
+        "technique": "TLC closure of the Tree edit grammar with symbolic cache signatures; co-exploration of real Tree objects against the TLC edge dump; TLC trace validation of in-place walks; TLC-computed exact grid oracle",
+        "design_ref": "DESIGN.md 5 C06",
+        "text": "TLC closes the sampler edit grammar (SMC build, data-point move, prune-regraft, subtree extract-rebuild-reattach, relabel, "
+                "dict round trip) over 3 data points with outliers (6 162 states, all histories) and checks InvFresh/InvWF/InvConserved after "
+                "every public action; deviations are refuted. Every spec edge is then applied to restored copies of real Tree objects (copy, "
+                "from_dict, pickled dict in rotation): the projected result must be a spec successor and every cached array and both joint "
+                "densities must equal a fresh rebuild and the exact integer grid marginal computed by TLC (GridOracle.tla), on data with "
+                "duplicate values. In-place random walks on 4 (thorough: 5) points, with sibling trees sharing grafted subtrees kept alive, are "
+                "validated step by step by TLC against the same spec (TraceTreeADT.tla).",
+        "note": "Trusted: TLC, projection, builder. Exhaustive for 3 points (names <= 7); sampled walks beyond. Real-valued data compared with fresh rebuild only.",
     },
     "C08": {
         "engine": "Proposal.tla",
